@@ -43,7 +43,7 @@ CHECKS["C19"] = {
              " R19.7: an endpoint's getData returns None or a value produced by this very receive on every path; a stored field that is not written on the path (the previous message) is never returned."
              " R19.8: a field of the hub that spin both tests and writes (a latch) has its initial value again on every exit of spin on which it was written."
              ' R19.9: sendData of every endpoint class and of the hub transmits whatever the message is - no path that skips the transmission is selected by a test of the message value (identity tests against None excepted), so falsy payloads such as the empty string of a zero-length datagram are not dropped.'
-             ' R19.10: openAll / closeAll call openCom / closeCom on every endpoint in every round of the loop (not short-circuited by, or conditional on, what earlier endpoints returned). R19.11: Comms.getCom returns None or the endpoint-table entry stored under its argument (an endpoint is known exactly under its table key, which is what spin and getData go by). R19.9 counts only calls that hand the message on as transmissions (len / isinstance / str of it are inspections).'),
+             ' R19.10: openAll / closeAll call openCom / closeCom on every endpoint in every round of the loop (not short-circuited by, or conditional on, what earlier endpoints returned). R19.11: Comms.getCom returns None or the endpoint-table entry stored under its argument (an endpoint is known exactly under its table key, which is what spin and getData go by). R19.9 counts only calls that hand the message on as transmissions (len / isinstance / str of it are inspections). R19.12: CommsObject and its subclasses define no __eq__ / __ne__ / __hash__ - the rule tables\' membership tests and removals rely on identity equality of endpoints.'),
     "note": ("Trusted: endpoints honour the CommsObject interface; real socket behaviour (shutdown on an unconnected UDP "
              "socket etc.) is not modelled."),
 }
@@ -80,7 +80,7 @@ CHECKS["C16"] = {
              " R16.6 also: generateTree hands generalGenerateTree the planner's own distance and obstruction applied to exactly the two nodes (a pre-filtered obstruction subset is a violation)."
              ' R16.9 accepts copies of the pose (tm(p), p.copy()) and reports any call that rewrites the pose (or the copy the coordinates are read from) between getPosition() and the index call.'
              ' R16.11: RRTStar.distance is the per-call selection between arcDistance (dmode 1) and distance (normal-form equality, with a path-summary fallback), nothing remembered between calls.'
-             ' R16.12: PathNode defines no pickling / copying hook - the R-tree hands back unpickled copies, which must carry the bookkeeping the planner assigned. R16.6 also closes setParent\'s effects over node-method calls on ANY receiver (parent.setChild -> previous.removeChild -> child.cost): no stored cost is rewritten behind the growth loop.'),
+             ' R16.12: PathNode defines no pickling / copying hook - the R-tree hands back unpickled copies, which must carry the bookkeeping the planner assigned. R16.6 also closes setParent\'s effects over node-method calls on ANY receiver (parent.setChild -> previous.removeChild -> child.cost): no stored cost is rewritten behind the growth loop. R16.12 covers tm as well: the node position is pickled inside the node by the R-tree.'),
     "note": "Trusted: purity of caller-supplied callbacks; rtree nearest() (library).",
 }
 
@@ -172,7 +172,7 @@ CHECKS["C05"] = {
              " R05.12: no kernel or helper that an Arm method hands a view of its stored joint vector to (angleMod hands its argument back, reshape is a view) writes into that argument (effects summary of the callee)."
              " R05.12 also covers stores the method itself makes into such a view."
              ' The joint-limit clamp is decided by exhaustive case analysis (sa/rules/clampcase.py): thetaProtector is interpreted element-wise on one representative per order cell of (joint value, lower limit, upper limit, numeric constants in the code) with np.any guards explored both ways; in every cell the result must be the clamp to the stored limits. R05.14: the body screw list is re-derived from the current home pose and space screws after the last write of either (typestate shared with C06 R06.1).'
-             ' R05.15: restoreOriginalEE stores the original home tool pose on every path (a skipping path only under equality of the two poses as whole transforms). R05.16: wherever a joint argument defaulting to None is replaced from the stored joint vector, the replacement is that vector itself (copy / reshape / angle wrap only), also through a resolving helper that hands its argument back.'),
+             ' R05.15: restoreOriginalEE stores the original home tool pose on every path (a skipping path only under equality of the two poses as whole transforms). R05.16: wherever a joint argument defaulting to None is replaced from the stored joint vector, the replacement is that vector itself (copy / reshape / angle wrap only), also through a resolving helper that hands its argument back. R05.17: the backup home tool pose (_original_end_effector_home) is read only by restoreOriginalEE (state dumps and comparisons aside): no pose query computes with it.'),
     "note": "Trusted: FKinSpace (C02); parameters documented as transforms are transforms; num_dof >= 1.",
 }
 
@@ -204,7 +204,7 @@ CHECKS["C07"] = {
              "the reference). Local convergence and 'unreachable => error above tolerance' are numerical and not decided. Also: R07.6 (effects summary) no IK kernel writes the storage of the start vector it is given, so a failed solve cannot move the arm's stored joints; R07.7 closure obligations on the primitives the solvers reach."
              " R07.8: on the success path of IKFree the pose compared with the goal is FK of the joint vector that is returned (not the solver's residual of a clamped evaluation). R07.9: the limit-respecting kernel clamps the start vector before its first error evaluation (or every caller hands it a vector drawn inside the limits), so a solve that stops at iteration 0 cannot return joints outside the limits."
              " R07.10: Arm.FK, through which every solver exit writes the state, stores the joint vector it evaluated (the clamped one when it clamps) together with the pose of that vector."
-             ' R07.10 includes the clamp case analysis. R07.11: a method that returns the array it handed to self.FK(...) (IKFree) relies on the clamp working in place - the case analysis also tracks whether the array returned on a clamping path is the argument object. R07.12: Arm methods that solve through self.IK / constrainedIK / IKFree (move with a stationary tool) leave the solver\'s state: no store to joints / tool pose / home / screws after the solve reaches an exit without FK.'),
+             ' R07.10 includes the clamp case analysis. R07.11: a method that returns the array it handed to self.FK(...) (IKFree) relies on the clamp working in place - the case analysis also tracks whether the array returned on a clamping path is the argument object. R07.12: Arm methods that solve through self.IK / constrainedIK / IKFree (move with a stationary tool) leave the solver\'s state: no store to joints / tool pose / home / screws after the solve reaches an exit without FK. R07.13: the angle wrap the solvers\' answers pass through (fsr.angleMod and its siblings) replaces an angle by its remainder modulo 2*pi only (rule function shared with C18 R18.2).'),
     "note": "Trusted: FKinSpace/JacobianSpace/MatrixLog6/Adjoint (C01/C02); documented parameter roles.",
 }
 
@@ -255,7 +255,7 @@ CHECKS["C18"] = {
              "builds a right-handed frame. Geodesic/metric relations as numbers and the optimiser-based helper are not decided. Helper formulas (IKPath, closeLinearGap, midpoint, lookAt, chainJacobian, tripleUnit) are decided by normal-form equality with reference implementations written from the definitions; R18.7 closure obligations."
              " R18.2 also bounds the in-place stores of tm.angleMod to the rotation rows 3..5 of the six-vector. R18.4 decides lookAt structurally when it is not written like the reference: on every returning path the result is tm(M) with the position kept, z = unit(target - position), y = z x x and x a unit vector orthogonal to z (unit(u x z), or a constant unit vector orthogonal to u only under a fact that |u x z| vanishes)."
              ' R18.9 accepts any common displacement of the two probes (the step parameter or one expression used on both sides) and requires the quotient to divide by twice that very displacement.'
-             ' R18.4 also holds closeArcGap to its reference form: origin @ TAAtoTM(unit six-vector of (goal - origin) * delta), normalised by the 6-norm of that difference. R18.9 resolves named (half) steps inside the divisor.'
+             ' R18.4 also holds closeArcGap to its reference form: origin @ TAAtoTM(unit six-vector of (goal - origin) * delta), normalised by the 6-norm of that difference. R18.9 resolves named (half) steps inside the divisor. R18.2 also requires that what replaces an angle is its remainder itself (a % m, np.mod, np.remainder, fmod, or a selection between that and the angle), not a function of it. R18.11: each of the 31 deprecated aliases of faser_general forwards its parameters, each in its own position, to the helper it announces.'
              ' R18.10: no helper of faser_general / basic_helpers that returns an array, list or transform carries a memoising decorator (lru_cache, cache, ...): results are fresh objects on every call.'),
     "note": "Trusted: exp/log primitives (C01); NumPy element-wise semantics.",
 }
@@ -293,7 +293,7 @@ CHECKS["C20"] = {
              " R20.7: the payload of a Screw / Wrench is stored as a 6x1 column on every path of Screw.__init__ (reshape to (6,1), a (6,1) zero column, or the argument itself only under the fact shape == (6,1)): disp indexes wrenches over that grid."
              " R20.8: indexing a transform returns the entry of its six-vector unchanged (lists of transforms are rendered cell by cell through tm.__getitem__)."
              ' R20.2 for arrays of 2 and more dimensions is decided by case analysis: the body of dispa is specialised to ndim = 2..5 and shape[0] = 0..4 (constants propagated, constant tests folded, loops unrolled) and on every remaining path the recursive renderings must be rows 0..shape[0]-1 once each, in order - however the loop over the first axis is written; an unconditional read of row 0 of an empty table is reported as such.'
-             ' R20.9: every whole store of self.TAA in class tm is a 6x1 column by construction or is followed by TAAtoTM() (which reshapes it) on every path, so tm.__getitem__ - through which lists of transforms are rendered - never meets a flat six-vector.'),
+             ' R20.9: every whole store of self.TAA in class tm is a 6x1 column by construction or is followed by TAAtoTM() (which reshapes it) on every path, so tm.__getitem__ - through which lists of transforms are rendered - never meets a flat six-vector. R20.10: an integer index of a tm / Screw returns the payload element itself (an array scalar, or float of it), on which printTFlist can call round() - not an ndarray made from it.'),
     "note": "Trusted: Python string formatting of finite floats; the stated input kinds.",
 }
 
@@ -312,7 +312,7 @@ CHECKS["C13"] = {
              " R13.5: Arm.FK evaluates the loaded chain at the joint vector it is given or at its clamp to the limits only (no folding of in-limit joint values before the product of exponentials)."
              ' R13.6: every Modern-Robotics primitive in the callee closure of the loader, class tm and Arm.FK (exp / log of rotations that the accumulated joint poses go through) has the normal form of the pinned reference.'
              " R13.5 includes the clamp case analysis: joint values inside the file's limits reach the product of exponentials unchanged, whatever their magnitude."
-             ' R13.7: Arm.setJointProperties stores the limits it is given unchanged (value-preserving wrappers only), so the loaded arm reports and clamps against the limits written in the file. R13.8: on the load path the poses that become the home tool matrix are composed as matrices (A @ B, tm(matrix)), never through localToGlobal / globalToLocal, whose exp(log(.)) rebuild is only accurate to ~1e-5 near a half turn (rpy 3.14159).'),
+             ' R13.7: Arm.setJointProperties stores the limits it is given unchanged (value-preserving wrappers only), so the loaded arm reports and clamps against the limits written in the file. R13.8: on the load path the poses that become the home tool matrix are composed as matrices (A @ B, tm(matrix)), never through localToGlobal / globalToLocal, whose exp(log(.)) rebuild is only accurate to ~1e-5 near a half turn (rpy 3.14159). R13.9: the angle wrap Arm.FK applies to the joint vector replaces an angle by its remainder modulo 2*pi only (shared with C18 R18.2): joint values beyond one turn, which URDF limits allow, stay congruent.'),
     "note": "Trusted: ElementTree parsing; tm composition (C04); the chain is strictly serial (as the property states).",
 }
 
